@@ -867,3 +867,20 @@ func init() {
 		MaxShrinkExecs: 150,
 	})
 }
+
+// GenForFaults generates a small library-written workload for the fault
+// simulator (E2): one of the E1 history kinds.
+func GenForFaults(r *rng.R, tier string, steer bool) *trace.Trace {
+	switch r.Intn(5) {
+	case 0:
+		return genC01(r, "quick", steer, 0)
+	case 1:
+		return genC02(r, "quick", steer, 0)
+	case 2:
+		return genC03(r, "quick", steer, 0)
+	case 3:
+		return genC12(r, "quick", steer, 0)
+	default:
+		return genC10(r, "quick", steer, 0)
+	}
+}
